@@ -1790,9 +1790,9 @@ class AtTimezone(Term):
         yield from self.field.nodes_()
 
     def get_sql(self, ctx: SqlContext) -> str:
-        sql = "{name} AT TIME ZONE {interval}'{zone}'".format(
+        sql = "{name} AT TIME ZONE {interval}{zone}".format(
             name=self.field.get_sql(ctx),
             interval="INTERVAL " if self.interval else "",
-            zone=self.zone,
+            zone=format_quotes(self.zone, "'"),
         )
         return format_alias_sql(sql, self.alias, ctx)
